@@ -268,6 +268,8 @@ class MailboxWorld:
         self.sim.on_end_made = self._end_made
         self.sim.fault_events = self._fault_events
         self.extra_app_events = None
+        self.unwelcome_done = False
+        self._planned = []
         self.port_down = False
         self.port_heal_at = 0
         self.reorder_heavy = bool(self.opts.get("reorder_heavy"))
@@ -617,6 +619,12 @@ class MailboxWorld:
         if "server_restart" in kinds and any(
                 l.up for l in net.links if l.mode == "message"):
             evs.append(("server_restart", self._f_restart))
+        if "restart_unwelcome" in kinds and not self.unwelcome_done and any(
+                l.up for l in net.links if l.mode == "message"):
+            # the operator restarts the server with --signal-error: every
+            # connection drops, and the welcome of every later connection
+            # carries an error
+            evs.append(("restart_unwelcome", self._f_restart_unwelcome))
         if "refuse" in kinds:
             if not self.port_down:
                 evs.append(("refuse_on", lambda: self._f_port("refuse")))
@@ -643,6 +651,7 @@ class MailboxWorld:
         dies and whatever was in flight is lost. Returns a function to be
         called after every step."""
         st = {"phase": 0, "link": None}
+        self._planned.append(st)
 
         def tick():
             if st["phase"] == 0 and self.sim.steps >= t1:
@@ -657,7 +666,8 @@ class MailboxWorld:
                                                   "uplink_stall:%d" %
                                                   link.serial))
                         break
-            elif st["phase"] == 1 and self.sim.steps >= t2:
+            elif st["phase"] == 1 and (self.sim.steps >= t2 or
+                                       st.get("finish")):
                 st["phase"] = 2
                 link = st["link"]
                 if link.up:
@@ -670,6 +680,7 @@ class MailboxWorld:
                                               "uplink_loss_cut:%d(lost %d)" %
                                               (link.serial, lost)))
                     self.sim.net.cut(link)
+        st["tick"] = tick
         return tick
 
     def _spend(self, what):
@@ -698,6 +709,12 @@ class MailboxWorld:
         for link in list(self.sim.net.links):
             if link.mode == "message" and link.up:
                 self.sim.net.cut(link)
+
+    def _f_restart_unwelcome(self):
+        self.unwelcome_done = True
+        self.server.server._welcome = dict(self.server.server._welcome or {},
+                                           error="sim: server is going away")
+        self._f_restart()
 
     def _f_port(self, mode):
         if mode != "ok":
@@ -738,6 +755,14 @@ class MailboxWorld:
         self.sim.chaos = False
         self.port_down = False
         self.sim.net.port_mode[self.server.port] = "ok"
+        for st in self._planned:
+            # planned compound faults end with the chaos: one that has not
+            # begun never does, one in its stall phase loses the link now
+            if st["phase"] == 0:
+                st["phase"] = 2
+            elif st["phase"] == 1:
+                st["finish"] = True
+                st["tick"]()
         for link in self.sim.net.links:
             for e in link.ends:
                 e.stalled = False
